@@ -224,6 +224,40 @@ func main() {
 			}
 		}
 		fmt.Fprintf(stdout, "%s: cases=%d nontrivial=%d monitor=%v counters=%v\n", os.Args[1], res.Evaluations, res.DistinctNontrivial, res.MonitorHitCount, res.Counters)
+	case "deleg":
+		fs := flag.NewFlagSet("deleg", flag.ExitOnError)
+		driver := fs.String("driver", "", "path to olpdriver")
+		seed := fs.Uint64("seed", 1, "seed")
+		hist := fs.Int("histories", 10, "histories")
+		blocks := fs.Int("blocks", 16, "blocks per history")
+		maxtx := fs.Int("maxtxs", 8, "max txs per block")
+		iter := fs.Int("iter", 200, "range-iterator cases on the real pending stores")
+		corpus := fs.String("corpus", "", "corpus dir (*.hist scripts, run first)")
+		out := fs.String("out", "", "result json")
+		replay := fs.String("replay", "", "re-execute one history script")
+		fs.Parse(os.Args[2:])
+		stdout := apph.SilenceAppLogs()
+		if *replay != "" {
+			rc, err := apph.ReplayDeleg(*driver, *replay, func(f string, a ...interface{}) { fmt.Fprintf(stdout, f, a...) })
+			apph.Cleanup()
+			if err != nil {
+				fmt.Fprintln(stdout, "olh deleg:", err)
+			}
+			os.Exit(rc)
+		}
+		res, err := apph.RunDeleg(apph.DelegOptions{Driver: *driver, Seed: *seed, Histories: *hist, Blocks: *blocks, MaxTxs: *maxtx, IterCases: *iter, Corpus: *corpus})
+		apph.Cleanup()
+		if err != nil {
+			fmt.Fprintln(stdout, "olh deleg:", err)
+			os.Exit(2)
+		}
+		if *out != "" {
+			if err := kv.WriteResult(*out, res); err != nil {
+				fmt.Fprintln(stdout, err)
+				os.Exit(2)
+			}
+		}
+		fmt.Fprintf(stdout, "deleg: cases=%d nontrivial=%d disagreements=%d monitor=%v counters=%v\n", res.Evaluations, res.DistinctNontrivial, res.DisagreementCount, res.MonitorHitCount, res.Counters)
 	default:
 		fmt.Fprintln(os.Stderr, "unknown engine", os.Args[1])
 		os.Exit(2)
